@@ -15,7 +15,8 @@ trap 'rm -rf "$WORK"' EXIT
 BIN=$(cd "$ROOT" && python3 -c "
 import sys; sys.path.insert(0,'lib'); import vlib
 print(vlib.build_harness('chan', ['harness/sim.c','harness/chan_drv.c'], 'asan',
-      wraps=['ares_tvnow','ares_rand_bytes','ares_generate_new_id']))") || exit 1
+      wraps=['ares_tvnow','ares_rand_bytes','ares_generate_new_id',
+             'ares_htable_hash_FNV1a','ares_htable_hash_FNV1a_casecmp']))") || exit 1
 echo "binary: $BIN"
 
 export ASAN_OPTIONS="detect_leaks=1:abort_on_error=0:exitcode=99:allocator_may_return_null=1"
